@@ -1,6 +1,6 @@
 (* C04: the tree invariant (Spec/C04.v) is established by every constructor of entry trees and preserved by
    every transformation Process applies (Model/Schema.v). *)
-From Coq Require Import List NArith Bool Lia.
+From Coq Require Import List NArith Bool Lia Wf_nat Arith.
 From GY Require Import Model.Schema Spec.C04 Proofs.SchemaLemmas.
 Import ListNotations.
 
@@ -380,3 +380,399 @@ Proof.
 Qed.
 
 End FindInv.
+
+(* ------------------------------------------------------------------ module trees *)
+Section ModulesInv.
+Variable SC : schema.
+Variable ic : bool.
+
+Lemma body_entry_dir_ok : forall m scopes body,
+  elems_ok false (match e_dir (fst (body_entry SC m scopes body)) with Some d => d | None => [] end).
+Proof.
+  intros. unfold body_entry.
+  pose proof (to_entry_inv SC (entry_fuel SC) {| g_mod := m; g_scopes := scopes |} [] (DGrouping O [] body)) as T.
+  destruct (e_dir (fst (to_entry SC (entry_fuel SC) _ [] (DGrouping O [] body)))) as [d|] eqn:E; [|constructor].
+  apply (TreeInv_dir _ _ _ T E).
+Qed.
+
+Lemma body_entry_dir_nodup : forall m scopes body,
+  NoDup (map fst (match e_dir (fst (body_entry SC m scopes body)) with Some d => d | None => [] end)).
+Proof.
+  intros. unfold body_entry.
+  pose proof (to_entry_inv SC (entry_fuel SC) {| g_mod := m; g_scopes := scopes |} [] (DGrouping O [] body)) as T.
+  destruct (e_dir (fst (to_entry SC (entry_fuel SC) _ [] (DGrouping O [] body)))) as [d|] eqn:E; [|constructor].
+  apply (TreeInv_dir _ _ _ T E).
+Qed.
+
+Lemma module_dir_ok : forall fuel merged m, dir_ok false (fst (fst (module_dir SC ic fuel merged m))).
+Proof.
+  induction fuel as [|f IH]; intros merged m; cbn [module_dir]; [apply dir_ok_nil|].
+  pose proof (body_entry_dir_ok m [] (m_body m)) as E1.
+  pose proof (body_entry_dir_nodup m [] (m_body m)) as E2.
+  destruct (body_entry SC m [] (m_body m)) as [me err]. cbn [fst] in E1, E2.
+  apply fold_left_inv with (I := fun st : (list (str * entry) * bool) * list str => dir_ok false (fst (fst st))).
+  - intros [acc mg] sn H. cbn [fst] in H.
+    destruct (find_module SC sn) as [sm|]; [|exact H].
+    destruct (mem _ mg); [exact H|].
+    destruct (_ && _).
+    + destruct (mem _ mg); [exact H|].
+      specialize (IH (key2 (m_name sm) (m_name m) :: key2 (m_name sm) (match m_belongs sm with Some o => o | None => [] end) :: mg) sm).
+      destruct (module_dir SC ic f _ sm) as [[sd serr] mg']. cbn [fst] in IH.
+      pose proof (merge_dir_ok false None sd acc H (proj2 IH)) as M.
+      destruct (merge_dir acc None sd) as [d e]. exact M.
+    + destruct ic; exact H.
+  - cbn [fst]. split; assumption.
+Qed.
+
+Lemma module_entry_inv : forall m, TreeInv false (fst (module_entry SC ic m)).
+Proof.
+  intros. unfold module_entry.
+  pose proof (module_dir_ok (S (length SC)) [] m) as H.
+  destruct (module_dir SC ic (S (length SC)) [] m) as [[d err] mg]. cbn [fst] in *.
+  apply TreeInv_dir_entry; [discriminate | intro L; exfalso; apply L; reflexivity | assumption].
+Qed.
+
+Lemma stage_F0_inv : ForestInv false (stage_F0 SC ic).
+Proof.
+  unfold stage_F0, ForestInv. apply Forall_forall. intros kv H.
+  apply in_map_iff in H. destruct H as [[m b] [E H]]. subst kv. cbn [fst snd].
+  apply filter_In in H. destruct H as [H _]. apply in_map_iff in H. destruct H as [m' [E' _]].
+  inversion E'; subst. apply module_entry_inv.
+Qed.
+
+(* ------------------------------------------------------------------ augments *)
+Definition AugsOk (l : list aug) : Prop := Forall (fun a => elems_ok false (a_dir a)) l.
+Definition PendOk (P : pendings) : Prop := Forall (fun kv => AugsOk (snd kv)) P.
+
+Lemma module_augs_ok : forall m, AugsOk (module_augs SC m).
+Proof.
+  intros. unfold module_augs, AugsOk. apply Forall_forall. intros a H.
+  apply in_map_iff in H. destruct H as [x [E _]]. subst a.
+  pose proof (body_entry_dir_ok m [m_body m] (snd x)) as B.
+  destruct (body_entry SC m [m_body m] (snd x)) as [e err]. exact B.
+Qed.
+
+Lemma stage_P0_ok : PendOk (stage_P0 SC).
+Proof.
+  unfold stage_P0, PendOk. apply Forall_forall. intros kv H.
+  apply in_map_iff in H. destruct H as [m [E _]]. subst kv. apply module_augs_ok.
+Qed.
+
+Lemma pend_lookup_ok : forall P mn, PendOk P -> AugsOk (match lookup mn P with Some l => l | None => [] end).
+Proof.
+  intros P mn H. destruct (lookup mn P) as [l|] eqn:E; [|constructor].
+  apply lookup_in in E. unfold PendOk in H. rewrite Forall_forall in H. apply (H _ E).
+Qed.
+
+Lemma pend_update_ok : forall P mn un, PendOk P -> AugsOk un -> PendOk (update mn un P).
+Proof. intros. apply Forall_update; auto. Qed.
+
+Lemma augment_module_inv : forall pending F err addErrors,
+  ForestInv false F -> AugsOk pending ->
+  ForestInv false (fst (fst (fst (augment_module SC F err pending addErrors)))) /\
+  AugsOk (snd (augment_module SC F err pending addErrors)).
+Proof.
+  induction pending as [|a rest IH]; intros F err addErrors HF HA; cbn [augment_module].
+  - split; [assumption | constructor].
+  - inversion HA as [|a' l Ha Hrest]; subst.
+    pose proof (Find_inv SC false F (a_mod a) (m_name (a_mod a), []) (a_path a) HF) as HF1.
+    destruct (Find SC F (a_mod a) (m_name (a_mod a), []) (a_path a)) as [target F1]. cbn [snd] in HF1.
+    match goal with |- context [if ?c then _ else _] => destruct c end.
+    + destruct target as [p|]; [|split; assumption].
+      match goal with |- context [augment_module SC ?F2 ?e2 rest addErrors] =>
+        assert (HF2 : ForestInv false F2); [| specialize (IH F2 e2 addErrors HF2 Hrest);
+          destruct (augment_module SC F2 e2 rest addErrors) as [[[F3 err3] n] un]; exact IH ] end.
+      apply update_pos_inv; [assumption|]. intros te Lte.
+      pose proof (locate_pos_inv _ _ _ _ HF1 Lte) as Tte.
+      unfold keeps. destruct (e_dir te) as [d|] eqn:Ed; [|auto].
+      rewrite e_name_set_dir, e_kind_set_dir. split; [|split; reflexivity].
+      apply TreeInv_set_dir; [assumption | congruence | | intros; discriminate].
+      destruct (TreeInv_dir _ _ _ Tte Ed) as [DO _].
+      apply (merge_dir_ok false (Some (owner_ns SC (a_mod a))) (a_dir a) (d, false)); assumption.
+    + specialize (IH F1 (err || addErrors) addErrors HF1 Hrest).
+      destruct (augment_module SC F1 (err || addErrors) rest addErrors) as [[[F3 err3] n] un].
+      cbn [fst snd] in *. destruct IH. split; [assumption | constructor; assumption].
+Qed.
+
+Lemma augment_pass_inv : forall fuel F err P mods i processed,
+  ForestInv false F -> PendOk P ->
+  ForestInv false (fst (fst (fst (fst (augment_pass SC fuel F err P mods i processed))))) /\
+  PendOk (snd (fst (fst (augment_pass SC fuel F err P mods i processed)))).
+Proof.
+  induction fuel as [|f IH]; intros F err P mods i processed HF HP; cbn [augment_pass]; [split; assumption|].
+  destruct (nth_error mods i) as [mn|]; [|split; assumption].
+  pose proof (augment_module_inv _ F err false HF (pend_lookup_ok P mn HP)) as [A B].
+  destruct (augment_module SC F err _ false) as [[[F1 err1] p] un]. cbn [fst snd] in A, B.
+  pose proof (pend_update_ok P mn un HP B) as HP1.
+  destruct un; apply IH; assumption.
+Qed.
+
+Lemma augment_loop_inv : forall fuel F err P mods applied,
+  ForestInv false F -> PendOk P ->
+  ForestInv false (fst (fst (fst (fst (augment_loop SC fuel F err P mods applied))))) /\
+  PendOk (snd (fst (fst (augment_loop SC fuel F err P mods applied)))).
+Proof.
+  induction fuel as [|f IH]; intros F err P mods applied HF HP; cbn [augment_loop]; [split; assumption|].
+  destruct mods as [|m0 mods']; [split; assumption|].
+  pose proof (augment_pass_inv (2 * length (m0 :: mods')) F err P (m0 :: mods') O O HF HP) as [A B].
+  destruct (augment_pass SC (2 * length (m0 :: mods')) F err P (m0 :: mods') O O) as [[[[F1 err1] P1] mods1] processed].
+  cbn [fst snd] in A, B.
+  destruct processed; [split; assumption | apply IH; assumption].
+Qed.
+
+End ModulesInv.
+
+(* ------------------------------------------------------------------ FixChoice *)
+Definition wrap1 (kv : str * entry) : str * entry :=
+  match e_kind (snd kv) with
+  | KCase => kv
+  | _ => (fst kv, Entry (e_name (snd kv)) KCase TSUnset TSUnset [] [] None [] None (e_ns (snd kv))
+                        (Some [(e_name (snd kv), snd kv)]) None)
+  end.
+Definition wrap_cases (e : entry) : entry :=
+  match e_kind e, e_dir e with
+  | KChoice, Some d => set_dir e (Some (map wrap1 d))
+  | _, _ => e
+  end.
+Definition fix_children (f : nat) (e1 : entry) : entry :=
+  match e_dir e1 with
+  | Some d => set_dir e1 (Some (map (fun kv => (fst kv, fix_choice f (snd kv))) d))
+  | None => e1
+  end.
+Definition fix_rpc (f : nat) (e2 : entry) : entry :=
+  match e_rpc e2 with
+  | Some (i, o) => set_rpc e2 (Some (option_map (fix_choice f) i, option_map (fix_choice f) o))
+  | None => e2
+  end.
+
+Lemma fix_choice_S : forall f e, fix_choice (S f) e = fix_rpc f (fix_children f (wrap_cases e)).
+Proof. reflexivity. Qed.
+
+Lemma map_fst_map : forall (g : entry -> entry) (d : list (str * entry)),
+  map fst (map (fun kv => (fst kv, g (snd kv))) d) = map fst d.
+Proof. induction d as [|[k v] d IH]; cbn; [reflexivity | rewrite IH; reflexivity]. Qed.
+
+Lemma map_fst_wrap1 : forall d, map fst (map wrap1 d) = map fst d.
+Proof.
+  induction d as [|[k v] d IH]; cbn [map]; [reflexivity|]. rewrite IH. f_equal.
+  unfold wrap1. cbn [snd fst]. destruct (e_kind v); reflexivity.
+Qed.
+
+Lemma dir_ok_map : forall s s' (g : entry -> entry) d,
+  dir_ok s d ->
+  (forall kv, In kv d -> TreeInv s (snd kv) -> TreeInv s' (g (snd kv)) /\ e_name (g (snd kv)) = e_name (snd kv)) ->
+  dir_ok s' (map (fun kv => (fst kv, g (snd kv))) d).
+Proof.
+  intros s s' g d [ND EL] Hg. split; [rewrite map_fst_map; assumption|].
+  unfold elems_ok in *. rewrite Forall_forall in EL. apply Forall_forall. intros x Hx.
+  apply in_map_iff in Hx. destruct Hx as [kv [E I]]. subst x. cbn [fst snd].
+  destruct (EL _ I) as [A B]. destruct (Hg _ I B) as [C D]. split; [congruence | assumption].
+Qed.
+
+Lemma TreeInv_wrap1 : forall s kv, fst kv = e_name (snd kv) -> TreeInv s (snd kv) ->
+  fst (wrap1 kv) = e_name (snd (wrap1 kv)) /\ TreeInv s (snd (wrap1 kv)) /\ e_kind (snd (wrap1 kv)) = KCase.
+Proof.
+  intros s [k v] N T. cbn [fst snd] in *. unfold wrap1. cbn [fst snd].
+  destruct (e_kind v) eqn:K; try (split; [assumption | split; [assumption | assumption]]);
+  cbn [fst snd e_name e_kind]; (split; [assumption | split; [|reflexivity]]);
+  (constructor;
+   [ unfold kind_ok; cbn [e_kind e_dir e_ty e_la]; split; [|split];
+     [ intro; discriminate | intros _; discriminate | let H := fresh in intro H; exfalso; apply H; reflexivity ]
+   | cbn [e_dir e_kind]; intros d E; inversion E; subst; split; [|split];
+     [ cbn; constructor; [intros []| constructor]
+     | constructor; [split; [reflexivity | assumption] | constructor]
+     | intros _ C; discriminate C ]
+   | cbn [e_rpc]; intros; discriminate ]).
+Qed.
+
+Lemma wrap_cases_keeps : forall s e, TreeInv s e -> keeps s wrap_cases e.
+Proof.
+  intros s e T. unfold keeps, wrap_cases.
+  destruct (e_kind e) eqn:K; try (split; [assumption | split; [reflexivity | exact K]]).
+  destruct (e_dir e) as [d|] eqn:D; [|split; [assumption | split; [reflexivity | exact K]]].
+  rewrite e_name_set_dir, e_kind_set_dir. split; [|split; [reflexivity | exact K]].
+  destruct (TreeInv_dir _ _ _ T D) as [[ND EL] _].
+  apply TreeInv_set_dir; [assumption | congruence | |].
+  - split; [rewrite map_fst_wrap1; assumption|].
+    unfold elems_ok in *. rewrite Forall_forall in EL. apply Forall_forall. intros x Hx.
+    apply in_map_iff in Hx. destruct Hx as [kv [E I]]. subst x. destruct (EL _ I) as [A B].
+    destruct (TreeInv_wrap1 s kv A B) as [P [Q _]]. split; assumption.
+  - intros _ _. unfold elems_ok in *. rewrite Forall_forall in EL. apply Forall_forall. intros x Hx.
+    apply in_map_iff in Hx. destruct Hx as [kv [E I]]. subst x. destruct (EL _ I) as [A B].
+    apply (TreeInv_wrap1 s kv A B).
+Qed.
+
+Lemma wrap_cases_choice : forall e d, e_kind e = KChoice -> e_dir (wrap_cases e) = Some d ->
+  Forall (fun kv => e_kind (snd kv) = KCase) d.
+Proof.
+  intros e d K D. unfold wrap_cases in D. rewrite K in D. destruct (e_dir e) as [d0|] eqn:D0; [|congruence].
+  rewrite e_dir_set_dir in D. inversion D; subst. apply Forall_forall. intros x Hx.
+  apply in_map_iff in Hx. destruct Hx as [[k v] [E _]]. subst x. unfold wrap1. cbn [snd].
+  destruct (e_kind v) eqn:Kv; cbn [snd e_kind]; auto.
+Qed.
+
+(* FixChoice preserves the invariant (without the choice clause), names and kinds, whatever the fuel *)
+Lemma fix_choice_weak : forall fuel e, TreeInv false e -> keeps false (fix_choice fuel) e.
+Proof.
+  induction fuel as [|f IH]; intros e T.
+  - unfold keeps. cbn [fix_choice]. split; [assumption | split; reflexivity].
+  - unfold keeps. rewrite fix_choice_S. destruct (wrap_cases_keeps false e T) as [T1 [N1 K1]].
+    set (e1 := wrap_cases e) in *. clearbody e1.
+    assert (S2 : keeps false (fix_children f) e1).
+    { unfold keeps, fix_children. destruct (e_dir e1) as [d|] eqn:D; [|split; [assumption | split; reflexivity]].
+      rewrite e_name_set_dir, e_kind_set_dir. split; [|split; reflexivity].
+      destruct (TreeInv_dir _ _ _ T1 D) as [DO _].
+      apply TreeInv_set_dir; [assumption | congruence | | intros; discriminate].
+      apply (dir_ok_map false false); [assumption|]. intros kv _ Tkv. destruct (IH _ Tkv) as [A [B _]]. split; assumption. }
+    destruct S2 as [T2 [N2 K2]]. set (e2 := fix_children f e1) in *. clearbody e2.
+    unfold fix_rpc. destruct (e_rpc e2) as [[i o]|] eqn:R.
+    + rewrite e_name_set_rpc, e_kind_set_rpc. split; [|split; congruence].
+      destruct (TreeInv_rpc _ _ _ _ T2 R) as [A B].
+      apply TreeInv_set_rpc; [assumption | |].
+      * intros x Ex. destruct i as [i|]; [|discriminate]. cbn [option_map] in Ex. inversion Ex; subst.
+        destruct (A i eq_refl) as [Ki [Ni Ti]]. destruct (IH _ Ti) as [P [Q Rk]].
+        split; [congruence | split; [congruence | assumption]].
+      * intros x Ex. destruct o as [o|]; [|discriminate]. cbn [option_map] in Ex. inversion Ex; subst.
+        destruct (B o eq_refl) as [Ko [No To]]. destruct (IH _ To) as [P [Q Rk]].
+        split; [congruence | split; [congruence | assumption]].
+    + split; [assumption | split; congruence].
+Qed.
+
+Lemma fix_all_inv : forall SC F, ForestInv false F -> ForestInv false (fix_all SC F).
+Proof.
+  intros SC F H. unfold fix_all, ForestInv in *. rewrite Forall_forall in H. apply Forall_forall. intros x Hx.
+  apply in_map_iff in Hx. destruct Hx as [kv [E I]]. subst x. cbn [snd].
+  apply (fix_choice_weak _ _ (H _ I)).
+Qed.
+
+(* with enough fuel FixChoice establishes the choice clause: every original level costs at most two units
+   (the implicit case and the member) *)
+Lemma HeightLe_mono : forall n e, HeightLe n e -> forall m, n <= m -> HeightLe m e.
+Proof.
+  induction n as [|n IH]; intros e H m Hm; inversion H as [n' e' D R]; subst.
+  destruct m as [|m]; [lia|]. constructor.
+  - intros d E. specialize (D d E). rewrite Forall_forall in *. intros x Hx. apply (IH _ (D x Hx)). lia.
+  - intros i o E. destruct (R i o E) as [A B]. split; intros x Ex; [apply (IH _ (A x Ex)) | apply (IH _ (B x Ex))]; lia.
+Qed.
+
+Lemma e_rpc_wrap_cases : forall e, e_rpc (wrap_cases e) = e_rpc e.
+Proof.
+  intros. unfold wrap_cases. destruct (e_kind e); try reflexivity.
+  destruct (e_dir e); [apply e_rpc_set_dir | reflexivity].
+Qed.
+
+Lemma kind_ok_some : forall n k c m df u t ky la ns d r d' r',
+  kind_ok (Entry n k c m df u t ky la ns (Some d) r) -> kind_ok (Entry n k c m df u t ky la ns (Some d') r').
+Proof.
+  intros n k c m df u t ky la ns d r d' r'. unfold kind_ok. cbn [e_kind e_dir e_ty e_la]. intros [A [B C]]. split; [|split]; auto.
+  - intro E. destruct (A E) as [X _]. discriminate X.
+  - intros _. discriminate.
+Qed.
+Lemma kind_ok_rpc : forall n k c m df u t ky la ns d r r',
+  kind_ok (Entry n k c m df u t ky la ns d r) -> kind_ok (Entry n k c m df u t ky la ns d r').
+Proof. intros n k c m df u t ky la ns d r r'. unfold kind_ok. cbn [e_kind e_dir e_ty e_la]. auto. Qed.
+
+(* one node whose children, rpc input and output have been fixed *)
+Lemma fix_node_strict : forall f e1,
+  TreeInv false e1 ->
+  (forall d1, e_dir e1 = Some d1 -> Forall (fun kv => TreeInv true (fix_choice f (snd kv))) d1) ->
+  (e_kind e1 = KChoice -> forall d1, e_dir e1 = Some d1 -> Forall (fun kv => e_kind (snd kv) = KCase) d1) ->
+  (forall i o, e_rpc e1 = Some (i, o) ->
+     (forall x, i = Some x -> TreeInv true (fix_choice f x)) /\ (forall x, o = Some x -> TreeInv true (fix_choice f x))) ->
+  TreeInv true (fix_rpc f (fix_children f e1)).
+Proof.
+  intros f e1 T1 CH KC RP.
+  pose proof (TreeInv_kind _ _ T1) as KO.
+  assert (DIR : forall d1, e_dir e1 = Some d1 ->
+           NoDup (map fst (map (fun kv => (fst kv, fix_choice f (snd kv))) d1)) /\
+           Forall (fun kv => fst kv = e_name (snd kv) /\ TreeInv true (snd kv))
+                  (map (fun kv => (fst kv, fix_choice f (snd kv))) d1) /\
+           (true = true -> e_kind e1 = KChoice ->
+            Forall (fun kv => e_kind (snd kv) = KCase) (map (fun kv => (fst kv, fix_choice f (snd kv))) d1))).
+  { intros d1 D1. destruct (TreeInv_dir _ _ _ T1 D1) as [[ND EL] _]. specialize (CH d1 D1).
+    unfold elems_ok in EL. rewrite Forall_forall in EL, CH. split; [|split].
+    - rewrite map_fst_map. assumption.
+    - apply Forall_forall. intros x Hx. apply in_map_iff in Hx. destruct Hx as [kv [E I]]. subst x. cbn [fst snd].
+      destruct (EL _ I) as [A B]. destruct (fix_choice_weak f _ B) as [_ [Nn _]]. split; [congruence | apply (CH _ I)].
+    - intros _ Kc. specialize (KC Kc d1 D1). rewrite Forall_forall in KC. apply Forall_forall. intros x Hx.
+      apply in_map_iff in Hx. destruct Hx as [kv [E I]]. subst x. cbn [snd].
+      destruct (EL _ I) as [_ B]. destruct (fix_choice_weak f _ B) as [_ [_ Kk]]. rewrite Kk. apply (KC _ I). }
+  assert (RPC : forall i o, e_rpc e1 = Some (i, o) ->
+           (forall x, option_map (fix_choice f) i = Some x -> e_kind x = KInput /\ e_name x = s_input /\ TreeInv true x) /\
+           (forall x, option_map (fix_choice f) o = Some x -> e_kind x = KOutput /\ e_name x = s_output /\ TreeInv true x)).
+  { intros i o R. destruct (TreeInv_rpc _ _ _ _ T1 R) as [A B]. destruct (RP i o R) as [P Q]. split.
+    - intros x Ex. destruct i as [i|]; [|discriminate]. cbn [option_map] in Ex. inversion Ex; subst.
+      destruct (A i eq_refl) as [Ki [Ni Ti]]. destruct (fix_choice_weak f _ Ti) as [_ [Nn Kk]].
+      split; [congruence | split; [congruence | apply (P i eq_refl)]].
+    - intros x Ex. destruct o as [o|]; [|discriminate]. cbn [option_map] in Ex. inversion Ex; subst.
+      destruct (B o eq_refl) as [Ko [No To]]. destruct (fix_choice_weak f _ To) as [_ [Nn Kk]].
+      split; [congruence | split; [congruence | apply (Q o eq_refl)]]. }
+  destruct e1 as [n1 k1 c1 m1 df1 u1 t1 ky1 la1 ns1 dir1 r1].
+  unfold fix_children, fix_rpc. cbn [e_dir e_rpc e_kind] in *.
+  destruct dir1 as [d1|]; cbn [set_dir e_rpc].
+  - destruct r1 as [[i o]|]; cbn [set_rpc].
+    + constructor.
+      * exact (kind_ok_some _ _ _ _ _ _ _ _ _ _ _ _ _ _ KO).
+      * cbn [e_dir e_kind]. intros d0 E0. inversion E0; subst d0. apply (DIR d1 eq_refl).
+      * cbn [e_rpc]. intros i' o' E. inversion E; subst. apply (RPC i o eq_refl).
+    + constructor.
+      * exact (kind_ok_some _ _ _ _ _ _ _ _ _ _ _ _ _ _ KO).
+      * cbn [e_dir e_kind]. intros d0 E0. inversion E0; subst d0. apply (DIR d1 eq_refl).
+      * cbn [e_rpc]. intros; discriminate.
+  - destruct r1 as [[i o]|]; cbn [set_rpc].
+    + constructor.
+      * exact (kind_ok_rpc _ _ _ _ _ _ _ _ _ _ _ _ _ KO).
+      * cbn [e_dir]. intros; discriminate.
+      * cbn [e_rpc]. intros i' o' E. inversion E; subst. apply (RPC i o eq_refl).
+    + constructor.
+      * exact KO.
+      * cbn [e_dir]. intros; discriminate.
+      * cbn [e_rpc]. intros; discriminate.
+Qed.
+
+Lemma fix_choice_strict : forall fuel h e,
+  HeightLe h e -> 2 * h <= fuel -> TreeInv false e -> TreeInv true (fix_choice fuel e).
+Proof.
+  induction fuel as [fuel IHf] using lt_wf_ind. intros h e HH Hf T.
+  destruct h as [|h]; [inversion HH|].
+  destruct fuel as [|f]; [lia|].
+  inversion HH as [n' e' HD HR]; subst.
+  rewrite fix_choice_S.
+  destruct (wrap_cases_keeps false e T) as [T1 [N1 K1]].
+  apply fix_node_strict.
+  - exact T1.
+  - (* children of the node after wrapping: fixed by [fix_choice f] *)
+    intros d1 D1. unfold wrap_cases in D1.
+    assert (ORIG : forall d, e_dir e = Some d -> Forall (fun kv => TreeInv true (fix_choice f (snd kv))) d).
+    { intros d D. specialize (HD d D). destruct (TreeInv_dir _ _ _ T D) as [[_ EL] _].
+      unfold elems_ok in EL. rewrite Forall_forall in *. intros x Hx.
+      apply (IHf f ltac:(lia) h); [apply (HD x Hx) | lia | apply (EL x Hx)]. }
+    destruct (e_kind e) eqn:K; try (apply ORIG; assumption).
+    destruct (e_dir e) as [d|] eqn:D; [|discriminate].
+    rewrite e_dir_set_dir in D1. inversion D1; subst d1.
+    specialize (HD d eq_refl). destruct (TreeInv_dir _ _ _ T D) as [[_ EL] _].
+    unfold elems_ok in EL. rewrite Forall_forall in *. intros x Hx.
+    apply in_map_iff in Hx. destruct Hx as [[k v] [E I]]. subst x.
+    destruct (EL _ I) as [Nk Tv]. cbn [fst snd] in Nk, Tv. specialize (HD _ I). cbn [snd] in HD.
+    unfold wrap1. cbn [snd].
+    assert (PLAIN : TreeInv true (fix_choice f v)) by (apply (IHf f ltac:(lia) h); [assumption | lia | assumption]).
+    destruct (e_kind v) eqn:Kv; cbn [snd]; try exact PLAIN;
+    (* an implicit case: its only child is the member, fixed with fuel f-1 *)
+    (destruct f as [|f']; [lia|]; rewrite fix_choice_S; unfold wrap_cases; cbn [e_kind e_dir];
+     unfold fix_children; cbn [e_dir set_dir map fst snd]; unfold fix_rpc; cbn [e_rpc];
+     assert (Tm : TreeInv true (fix_choice f' v)) by (apply (IHf f' ltac:(lia) h); [assumption | lia | assumption]);
+     destruct (fix_choice_weak f' v Tv) as [_ [Nm _]];
+     constructor;
+     [ unfold kind_ok; cbn [e_kind e_dir e_ty e_la]; split; [|split];
+       [ intro; discriminate | intros _; discriminate | let H := fresh in intro H; exfalso; apply H; reflexivity ]
+     | cbn [e_dir e_kind]; intros d0 E0; inversion E0; subst; split; [|split];
+       [ cbn; constructor; [intros []| constructor]
+       | constructor; [cbn [fst snd]; split; [congruence | assumption] | constructor]
+       | intros _ C; discriminate C ]
+     | cbn [e_rpc]; intros; discriminate ]).
+  - intros Kc d1 D1. apply (wrap_cases_choice e); [congruence | assumption].
+  - intros i o R. rewrite e_rpc_wrap_cases in R. destruct (HR i o R) as [HA HB].
+    destruct (TreeInv_rpc _ _ _ _ T R) as [A B]. split; intros x Ex.
+    + destruct (A x Ex) as [_ [_ Tx]]. apply (IHf f ltac:(lia) h); [apply (HA x Ex) | lia | assumption].
+    + destruct (B x Ex) as [_ [_ Tx]]. apply (IHf f ltac:(lia) h); [apply (HB x Ex) | lia | assumption].
+Qed.
